@@ -574,7 +574,10 @@ def random_scenario(seed, nw=2):
                 nreg += 1
                 ops.append(let(nreg, fresh(rnd.choice(["int", "bin"]))))
                 got.append(nreg)
-        ops.append(ret(t(*[r(g) for g in got]) if got else OKE))
+        if rnd.random() < 0.12:
+            ops.append(fail())                 # the process ends in a runtime error (C15: only its awaiters notice)
+        else:
+            ops.append(ret(t(*[r(g) for g in got]) if got else OKE))
         plans.append(ops)
     # the entry process: spawn everything, send some messages, await some, return
     main = []
@@ -588,14 +591,15 @@ def random_scenario(seed, nw=2):
             sent_to[j].append(m)
             main.append(send(j + 1, m))
     rnd.shuffle(main[n:])
-    awaited = rnd.sample(range(n), rnd.randint(1, n))
+    # awaits, possibly of the same process more than once (a select that gave up on a timeout, then a re-await)
+    awaited = [rnd.randrange(n) for _ in range(rnd.randint(1, n + 1))]
     reg = n
     outs = []
     for j in awaited:
         if reg >= 8:
             break
         reg += 1
-        srcs = [aw(j + 1)] + ([tmo(rnd.choice([2, 3]))] if rnd.random() < 0.5 else [])
+        srcs = [aw(j + 1)] + ([tmo(rnd.choice([0, 2, 3]))] if rnd.random() < 0.5 else [])
         main.append(select(reg, *srcs))
         outs.append(reg)
     main.append(ret(t(*[r(x) for x in outs])))
